@@ -12,6 +12,12 @@ pub use scalar32::*;
 #[cfg(not(any(any(target_arch = "arm"), feature = "force-32bits")))]
 pub use scalar64::*;
 
+/// verification hook: the multiply-add (a * b + c) mod L used by Ed25519 signing
+#[cfg(feature = "verif-hooks")]
+pub fn verif_muladd(a: &Scalar, b: &Scalar, c: &Scalar) -> Scalar {
+    muladd(a, b, c)
+}
+
 impl Scalar {
     #[allow(clippy::needless_range_loop)]
     pub(crate) fn slide(&self) -> [i8; 256] {
